@@ -74,6 +74,9 @@ fn alphabet(old: &Value) -> Vec<(Value, bool)> {
             (json!(7u64), true),
             (json!(1000u64), true),
             (json!(u32::MAX as u64 + 17), true),
+            // not representable as f64: 2^53 + 1 and a full 64-bit pattern
+            (json!((1u64 << 53) + 1), true),
+            (json!(0x9E37_79B9_7F4A_7C15u64), false),
             (json!(null), false),
         ],
         Value::Number(_) => vec![
@@ -316,7 +319,7 @@ pub fn run(tier: Tier, _replay: Option<String>) -> i32 {
         "C19",
         tier,
         "exploration",
-        "six presets x {default; every leaf of the settings JSON substituted by every value of its type alphabet (bools, ints {0,1,2,7,1000,2^32+16}, floats {0,1e-3,0.5,0.999,1.5,1.2e15,5e-324,-2.5}, null<->number, every enum variant incl. Fixed(x)); thorough: all pairs}; oracles: JSON fixed point and field identity, Debug field list subset of JSON keys, bit-identical chains (30 draws NUTS / 10 MCLMC, 200k-evaluation watchdog) from round-tripped settings. distinct = (preset, field) classes",
+        "six presets x {default; every leaf of the settings JSON substituted by every value of its type alphabet (bools, ints {0,1,2,7,1000,2^32+16,2^53+1,0x9E3779B97F4A7C15}, floats {0,1e-3,0.5,0.999,1.5,1.2e15,5e-324,-2.5}, null<->number, every enum variant incl. Fixed(x)); thorough: all pairs}; oracles: JSON fixed point and field identity, Debug field list subset of JSON keys, bit-identical chains (30 draws NUTS / 10 MCLMC, 200k-evaluation watchdog) from round-tripped settings. distinct = (preset, field) classes",
     );
     report.assume("non-finite floats are outside the quantifier (JSON has no representation); substitutions whose JSON type does not fit the field are skipped and counted");
     let mut jobs = vec![];
